@@ -398,6 +398,11 @@ class CFG:
                     and isinstance(a.value.func.value, ast.Name) and a.value.func.attr in ("append", "extend", "update", "insert") \
                     and a.value.func.value.id not in ("self", "cls"):
                 out.append((a.value.func.value.id, "mutcall", a.value))
+            elif isinstance(a, ast.Expr) and isinstance(a.value, ast.Call):
+                # `np.divide(x, y, out=buf, ...)` as a statement: buf now holds what the call returns
+                for k in a.value.keywords:
+                    if k.arg == "out" and isinstance(k.value, ast.Name) and k.value.id not in ("self", "cls"):
+                        out.append((k.value.id, "outcall", a.value))
             elif isinstance(a, (ast.FunctionDef, ast.AsyncFunctionDef, ast.ClassDef)):
                 out.append((a.name, "def", a))
             elif isinstance(a, (ast.Import, ast.ImportFrom)):
